@@ -206,6 +206,10 @@ func judgeC12(hst Hist) *h.Verdict {
 				return v.Failf("release-body", "step %d: 204 with a body %.100s", step, res.Body)
 			}
 			v.Label("release")
+		case "bystanders":
+			if res.Status != 201 {
+				return v.Failf("create-status/bystander", "step %d: %s answered %d: %.300s", step, res.Path, res.Status, res.Body)
+			}
 		case "recharge":
 			if res.Status != 204 {
 				return v.Failf("recharge-status", "step %d: recharge for a known subscriber answered %d, want 204", step, res.Status)
@@ -281,3 +285,7 @@ func genC12(t *rapid.T) Hist {
 }
 
 func TestC12Contract(t *testing.T) { h.Run(t, "C12", "histories", genC12, judgeC12) }
+
+func TestC12Volume(t *testing.T) {
+	h.Run(t, "C12", "volume", func(t *rapid.T) Hist { return genVolumeHist(t, true) }, volumeOf(judgeC12, true))
+}
